@@ -1005,9 +1005,9 @@ func main() {
 	if len(os.Args) > 3 {
 		code := emitCode(
 			map[string]*pkg{"cashu": cashuP, "crypto": cryptoP, "mint": mintP, "wallet": walletP, "nut04": nut04P, "nut05": nut05P,
-				"nut07": nut07P, "nut10": nut10P, "nut11": nut11P},
+				"nut07": nut07P, "nut10": nut10P, "nut11": nut11P, "nut14": nut14P},
 			map[string]constEnv{"cashu": cashuC, "crypto": cryptoC, "mint": mintC, "nut04": collectConsts(nut04P), "nut05": collectConsts(nut05P),
-				"nut07": collectConsts(nut07P), "nut10": collectConsts(nut10P), "nut11": nut11C},
+				"nut07": collectConsts(nut07P), "nut10": collectConsts(nut10P), "nut11": nut11C, "nut14": nut14C},
 			[]trTarget{
 				{"cashu", "", "OverflowAddUint64"}, {"cashu", "", "UnderflowSubUint64"},
 				{"cashu", "BlindedMessages", "Amount"}, {"cashu", "BlindedMessages", "AmountChecked"},
@@ -1017,7 +1017,7 @@ func main() {
 				{"wallet", "", "feesForProofs"}, {"wallet", "", "feesForCount"},
 				{"mint", "Mint", "TransactionFees"},
 				{"wallet", "", "inputsWithoutDLEQ"},
-				{"nut11", "", "IsSigAll"}, {"nut11", "", "DuplicateSignatures"}, {"nut11", "", "ParseP2PKTags"}, {"nut11", "", "HasValidSignatures"}, {"nut11", "", "VerifyP2PKLockedProof"},
+				{"nut11", "", "IsSigAll"}, {"nut11", "", "DuplicateSignatures"}, {"nut11", "", "ParseP2PKTags"}, {"nut11", "", "HasValidSignatures"}, {"nut11", "", "VerifyP2PKLockedProof"}, {"nut14", "", "VerifyHTLCProof"},
 				{"nut10", "SecretKind", "String"},
 				{"nut04", "State", "String"}, {"nut04", "", "StringToState"},
 				{"nut05", "State", "String"}, {"nut05", "", "StringToState"},
